@@ -143,9 +143,11 @@ Theorem C12_address_canonical_gaps :
 Proof. exact address_canonical_gaps. Qed.
 Print Assumptions C12_address_canonical_gaps.
 
-(* The domain premise of the lock theorems of v1.7 - v1.11 cannot be dropped (harness finding registration-fee-recipient-padding): the
-   builder registration's fee recipient is hashed by a bare PutBytes, a 21-byte value ending in 00
-   has the root of the 20-byte one. *)
+(* The domain premise of the lock theorems of v1.7 - v1.11 cannot be dropped at the hash level: the
+   builder registration's fee recipient is hashed by a bare PutBytes, a 21-byte value ending in 00 has
+   the root of the 20-byte one (every hash function).  This was finding F14
+   (registration-fee-recipient-padding): before the fix the altered lock passed verification; the
+   fixed verifyBuilderRegistrations checks the lengths, i.e. enforces the premise [dom]. *)
 Theorem C12_registration_padding_collision :
   collides prog_lock_v1_7 /\ collides prog_lock_v1_8 /\ collides prog_lock_v1_9 /\
   collides prog_lock_v1_10 /\ collides prog_lock_v1_11 /\
